@@ -29,12 +29,15 @@ func init() {
 			"(Z6) on the amend path of storeOrAmend*Duties (epoch already cached) a fetched duty is added only when its validator index is new, i.e. among (indices requested by this fetch) minus (indices already recorded) - " +
 			"never the fetched batch as a whole, since a concurrent overlapping request may have recorded part of it in the meantime -, the scans over the fetched duties and over the new indices run to the end " +
 			"(a validator may have several duties per epoch), and the indices recorded on that path are exactly the new ones; " +
+			"(Z7) in each cache entry point no return with a nil error is reachable on the edge on which the beacon request for the indices that are not cached failed (a partial hit never degrades to the cached part), " +
+			"and every duty of a successful answer is part of this call's beacon response or a cached duty whose append is confined, per element, to membership of its validator index in the set of indices this caller asked for " +
+			"(lists returned by fetch*/storeOrAmend* hold every index ever requested for the epoch and are never handed on as a whole); " +
 			"(Z5) production wiring subscribes InvalidateCache (method value or forwarding literal) to chain-reorg events and calls Trim from the slot subscriber.",
 		NotDecided: "equality with the uncached beacon answer over request histories and interleavings (a value/schedule statement); values boxed in `any` inside the metadata map are assumed immutable " +
 			"(a shallow map clone counts as a private copy).",
 		Assumptions: []string{"values boxed in `any` inside the beacon response metadata are immutable scalars (roots, booleans): copying a map[string]any one level deep isolates it"},
 		Run:         c20,
-		Mutants:     append(append(c20Mutants(), c20PostFixMutants()...), c20N4Mutants()...),
+		Mutants:     append(append(append(c20Mutants(), c20PostFixMutants()...), c20N4Mutants()...), c20N5Mutants()...),
 	})
 }
 
@@ -100,6 +103,8 @@ func c20(c *rt.Ctx) {
 	// Z6 (c20n4_amend.go): per role the first store, the scan over the fetched duties, the filter of the appended
 	// duties and the recorded indices
 	c.Rule("Z6", 9, func() { c20Z6(c) })
+	// Z7 (c20n5_answer.go): per entry point the failed request and the provenance of the answer's elements
+	c.Rule("Z7", 6, func() { c20Z7(c) })
 }
 
 // ---------------------------------------------------------------------------------------------
